@@ -293,6 +293,10 @@ def finding_status() -> Tuple[List[str], List[str]]:
         e = ast.parse(src, mode="eval").body
         if same_expr(shown_inline(ast.parse(src, mode="eval").body)[0], e)[0]:
             fixed.add(fid)
+    for fid, pat in RE_PROBES.items():
+        got = judge_regex(pat)[0]
+        if got is not None and same_regex(pat, got)[0]:
+            fixed.add(fid)
     if quoted_probe_fixed():
         fixed.add("string-annotation-no-parent")
     for fid, val in LIT_PROBES.items():
@@ -435,6 +439,38 @@ def constant_pages(lines: List[str], names: List[str]) -> List[Tuple[str, str]]:
         if attr is None or getattr(attr, "value", None) is None:
             raise MachineryError(f"the builder kept no value for {nm}")
         out.append((attr.kind.name if attr.kind else "?", _CodeText(flatten(epydoc2stan.format_constant_value(attr))).text))
+    return out
+
+
+LIT_COMPAT = "from pkg import engine\nfrom typing import Literal, Optional\n\ndef describe(e: 'engine.K', how: Literal['x'] = 'x') -> str: ...\n"
+
+
+def shown_literal_annotations(setup: int, sources: List[str]) -> List[Tuple[str, bool]]:
+    """Annotations `v<n>: <annotation> = 0` of the module pkg.engine, built by the real builder in the project set-up
+    `setup` of Expr.tla's Mode "lit"; the annotation is colourized the way type2stan does."""
+    from pydoctor import model, node2stan
+    from pydoctor.epydoc.markup._pyval_repr import colorize_inline_pyval
+    head = {1: "import typing as t\n", 2: "from pkg import compat as t\n", 3: "from pkg import compat as t\n",
+            4: "from typing import Literal, Optional\n"}[setup]
+    engine = head + "class K: 'doc'\n" + "".join(f"v{n}: {src} = 0\n" for n, src in enumerate(sources))
+    system = model.System()
+    system.options.verbosity = -3
+    builder = system.systemBuilder(system)
+    builder.addModuleString("", "pkg", is_package=True)
+    mods = [("engine", engine), ("compat", LIT_COMPAT)]
+    if setup == 3:
+        mods.reverse()                                   # the re-exporting module is given (and analysed) first
+    for name, text in mods:
+        builder.addModuleString(text, name, parent_name="pkg")
+    builder.buildModules()
+    mod = system.allobjects["pkg.engine"]
+    out = []
+    for n, src in enumerate(sources):
+        attr = mod.contents.get(f"v{n}")
+        if attr is None or getattr(attr, "annotation", None) is None:
+            raise MachineryError(f"the builder kept no annotation for v{n}: {src}")
+        d = colorize_inline_pyval(attr.annotation)
+        out.append(("".join(node2stan.gettext(d.to_node())), d.is_complete))
     return out
 
 
@@ -956,6 +992,118 @@ def run_history(ctx: Ctx, sources: List[str], trees_file: Any, fixed_ids: List[s
     reset_shared_nodes()
 
 
+# --------------------------------------------------------------------- re.compile(<pattern>) (ExprRe.tla)
+RE_ATOM_TEXT = {"a": "a", "b_plus": "b+", "a_star": "a*", "a_1_or_more": "a{1,}", "alt": "a|b", "group": "(a)",
+                "nc_alt": "(?:a|b)", "set_ab": "[ab]", "set_a_hyphen_z": "[a\\-z]", "set_hyphen_a": "[\\-a]", "range_az": "[a-z]",
+                "not_a": "[^a]", "esc_dot": "\\.", "esc_hyphen": "\\-", "dot": ".", "scoped_i": "(?i:a)", "scoped_s": "(?s:.)",
+                "named_group": "(?P<n>a)", "cond_group": "(a)?(?(1)b|c)", "open_paren": "("}
+RE_ATOMS = sorted(RE_ATOM_TEXT)
+RE_FINDINGS = ["re-class-hyphen-unescaped", "re-scoped-flag-dropped"]
+RE_PROBES = {"re-class-hyphen-unescaped": "[a\\-z]", "re-scoped-flag-dropped": "(?i:a)"}
+_RE_SUBJECTS: List[str] = []
+
+
+def re_subjects() -> List[str]:
+    if not _RE_SUBJECTS:
+        import itertools
+        for n in range(0, 4):
+            _RE_SUBJECTS.extend("".join(t) for t in itertools.product("abzA-.\n", repeat=n))
+    return _RE_SUBJECTS
+
+
+def same_regex(p1: str, p2: str) -> Tuple[bool, str]:
+    """Do two patterns denote the same regular expression, as far as Python's `re` can tell on every string of up
+    to 3 characters over a small alphabet, plus the groups they define."""
+    import re
+    try:
+        c1, c2 = re.compile(p1), re.compile(p2)
+    except re.error as e:
+        return False, f"not a pattern: {e}"
+    if (c1.groups, c1.groupindex) != (c2.groups, c2.groupindex):
+        return False, "different groups"
+    for sub in re_subjects():
+        if (c1.fullmatch(sub) is None) != (c2.fullmatch(sub) is None):
+            return False, f"{'only the source' if c1.fullmatch(sub) else 'only the shown pattern'} matches {sub!r}"
+    return True, ""
+
+
+def shown_regex(pattern: str, func: str = "re.compile") -> str:
+    return shown_inline(ast.parse(f"{func}({pattern!r})", mode="eval").body)[0]
+
+
+def judge_regex(pattern: str) -> Tuple[Optional[str], str, str]:
+    """(pattern shown inside re.compile(r'...') or None, the whole text, why not)"""
+    shown = shown_regex(pattern)
+    e = parse_expr(shown)
+    if not (isinstance(e, ast.Call) and len(e.args) == 1 and not e.keywords and isinstance(e.args[0], ast.Constant)
+            and isinstance(e.args[0].value, str) and ast.unparse(e.func) == "re.compile"):
+        return None, shown, "the shown text is not re.compile(<string>)"
+    return e.args[0].value, shown, ""
+
+
+def regex_cfg(ctx: Ctx, open_ids: List[str], fixed_ids: List[str]) -> str:
+    return (f"SPECIFICATION Spec\nCONSTANTS Atoms = {tla(set(RE_ATOMS))}\n          MaxAtoms = {2 if ctx.quick else 3}\n"
+            f"          Open = {tla(set(open_ids))}\n          Fixed = {tla(set(fixed_ids))}\n"
+            "CONSTRAINT Emit\nINVARIANT DesignKnown\n")
+
+
+def run_regex(ctx: Ctx, open_ids: List[str], fixed_ids: List[str], stats: Dict[str, int]) -> None:
+    import re
+    r = ctx.tlc("ExprRe", regex_cfg(ctx, open_ids, fixed_ids), workers="auto", extra=["-continue"], timeout=900)
+    if r.errors or (r.rc != 0 and not r.violated):
+        raise MachineryError(f"TLC failed on ExprRe: {r.errors[:3]}\n" + "\n".join(r.out.splitlines()[-25:]))
+    if len(r.printed) != r.distinct:
+        raise MachineryError(f"ExprRe: {r.distinct} cases but {len(r.printed)} records")
+    for rec in r.printed:
+        pattern = "".join(RE_ATOM_TEXT[x] for x in rec["pat"])
+        try:
+            re.compile(pattern)
+            valid = True
+        except re.error:
+            valid = False
+        if valid != rec["ispattern"]:
+            raise MachineryError(f"ExprRe.tla!IsPattern disagrees with re.compile on {pattern!r}")
+        ctx.traces += 1
+        stats["regexes"] += 1
+        classes = sorted(rec["cls"])
+        got, shown, why = judge_regex(pattern)
+        if not rec["presented"]:
+            # ordinary call rendering, from a clean slate: what the same call of another function looks like
+            want = "re" + shown_regex(pattern, "xx.compile")[2:]
+            ok, why = shown == want, f"expected the ordinary call rendering {want!r}"
+            drift = not ok
+        else:
+            stats["regexes_presented"] += 1
+            drift = got is None
+            ok, why = (False, why) if got is None else same_regex(pattern, got)
+        if drift:
+            stats["drift"] += 1
+            ctx.drift_note({"pattern": pattern, "model": "presented" if rec["presented"] else "ordinary call", "real": shown})
+        if not ok:
+            stats["violations"] += 1
+            vk = f"regex:{'+'.join(classes) or 'UNEXPLAINED'}:{'drift' if drift else 'as-modelled'}"
+            byclass = ctx.extra.setdefault("violations_by_class", {})
+            byclass[vk] = byclass.get(vk, 0) + 1
+            ctx.extra.setdefault("violation_examples", {}).setdefault(vk, f"{pattern!r}  ->  {shown}")
+            ctx.violation({"invariant": "RegexMeaning", "origin": "regex", "input": pattern,
+                           "observed": {"shown": shown, "pattern_shown": got}, "why": why,
+                           "expected": "the pattern shown denotes the same regular expression (or the ordinary call rendering)",
+                           "design_classes": classes, "drift": drift,
+                           "key": f"re:{classes}:{pattern if not classes or drift else ''}"})
+        elif classes:
+            stats["design_bad_but_real_ok"] += 1
+        if stats["regexes"] % 150 == 3:
+            ctx.sample({"pattern": pattern, "shown": shown})
+
+
+def kf_regex(fid: str, open_ids: List[str]):
+    def match(w: Dict[str, Any]) -> bool:
+        cl = w.get("design_classes") or []
+        return (w.get("invariant") == "RegexMeaning" and not w.get("drift") and fid in cl
+                and all(c in open_ids for c in cl))
+    return match
+
+
 # ------------------------------------------------------------------------------ random deeper trees
 def gen_tree(rng: random.Random, depth: int) -> Dict[str, Any]:
     N = lambda k, op, kids: {"k": k, "op": op, "kids": kids}
@@ -1064,11 +1212,13 @@ def run(ctx: Ctx) -> int:
         ctx.register_matcher(fid, kf_matcher(fid, open_ids))
     for fid in STR_FINDINGS:
         ctx.register_matcher(fid, kf_literal(fid, open_ids))
+    for fid in RE_FINDINGS:
+        ctx.register_matcher(fid, kf_regex(fid, open_ids))
     check_astor_table(ctx)
     stats = {k: 0 for k in ("seen", "drift", "design_bad", "violations", "incomplete", "necessity_checked",
                             "design_bad_but_real_ok", "strings", "layout", "layout_complete", "layout_wrapped",
                             "layout_cut", "layout_multiline_text", "segments", "segments_wrapped",
-                            "strings_html", "histories", "histories_poisoned")}
+                            "strings_html", "histories", "histories_poisoned", "regexes", "regexes_presented")}
     design_violated: List[str] = []
     # ---- inputs that do not depend on the code under test, then all TLC runs that only need those
     ntrees = 1500 if ctx.quick else 30000
@@ -1093,7 +1243,9 @@ def run(ctx: Ctx) -> int:
         pre.submit("Expr", expr_cfg("file", ALL_CMP, open_ids, fixed_ids), env={"CASE_FILE": str(f)}, **ex)
     pre.submit("Expr", expr_cfg("ann", ann_cmp, open_ids, fixed_ids, ann_ops), **ex)
     pre.submit("Expr", expr_cfg("aug", d3_cmp, open_ids, fixed_ids), **ex)
+    pre.submit("Expr", expr_cfg("lit", d3_cmp, open_ids, fixed_ids), **ex)
     pre.submit("ExprStr", strings_cfg(ctx, open_ids, fixed_ids), **ex)
+    pre.submit("ExprRe", regex_cfg(ctx, open_ids, fixed_ids), **ex)
     maxll, maxml, extra_ll = layout_bounds(ctx)
     pre.submit("ExprLayout", layout_cfg("enum", maxll, maxml, fixed_ids, extra_ll),
                env={"LAYOUT_FILE": str(ctx.scratch / "layout_trees.json")}, **ex)
@@ -1135,6 +1287,14 @@ def run(ctx: Ctx) -> int:
     for rec, real in zip(ann, shown_ann):
         judge_tree(ctx, rec, "annotation", stats, real=real)
     ctx.extra["annotations_with_quoted_part"] = len(ann)
+    # ---- the arguments of Literal[...] stay strings, however the qualifier is bound and in whichever order the modules
+    #      of the import cycle are analysed
+    lit = tlc_cases("lit", d3_cmp)
+    for setup in (1, 2, 3, 4):
+        recs = [rec for rec in lit if rec["n"] == setup]
+        for rec, real in zip(recs, shown_literal_annotations(setup, ["".join(rec["ref"]) for rec in recs])):
+            judge_tree(ctx, rec, f"literal-annotation:setup{setup}", stats, real=real)
+    ctx.extra["literal_annotations"] = len(lit)
     # ---- values built by two statements (V = form; V op= rhs), through the real builder, read back from the page
     aug = tlc_cases("aug", d3_cmp)
     lines, names = [], []
@@ -1149,6 +1309,8 @@ def run(ctx: Ctx) -> int:
     ctx.extra["values_built_by_augmented_assignment"] = {"cases": len(aug), "kinds": kinds}
     # ---- string / bytes literals (ExprStr.tla)
     run_strings(ctx, open_ids, fixed_ids, stats)
+    # ---- re.compile(<pattern>): presented or ordinary call, same regular expression (ExprRe.tla)
+    run_regex(ctx, open_ids, fixed_ids, stats)
     # ---- line length / line count: wrapping, truncation, is_complete (ExprLayout.tla)
     run_layout(ctx, lsources, fixed_ids, stats)
     run_segments(ctx, fixed_ids, stats)
@@ -1180,7 +1342,9 @@ def replay(ctx: Ctx, path: str) -> int:
     bad = False
     if w.get("invariant") == "RoundTrip" and "tree" in w:
         want = mk_ast(w["tree"])
-        shown, complete = (shown_annotations([w["input"]])[0] if w.get("origin") == "annotation"
+        org = str(w.get("origin"))
+        shown, complete = (shown_annotations([w["input"]])[0] if org == "annotation"
+                           else shown_literal_annotations(int(org[-1]), [w["input"]])[0] if org.startswith("literal-annotation")
                            else shown_inline(mk_ast(w["tree"]))[:2])
         ok, why = same_expr(shown, want) if complete else (shown.endswith("..."), "cut without marker")
         print(f"replay: input {w['input']!r} shown {shown!r} ->", "holds now" if ok else f"still violated ({why})")
@@ -1198,6 +1362,13 @@ def replay(ctx: Ctx, path: str) -> int:
         got = literal_value(shown)
         bad = not (complete and type(got) is type(value) and got == value)
         print(f"replay: value {w['input']} shown {shown!r} ->", "still violated" if bad else "holds now")
+    elif w.get("invariant") == "RegexMeaning":
+        got, shown, why = judge_regex(w["input"])
+        ok = got is not None and same_regex(w["input"], got)[0]
+        if not ok:
+            ok = shown == "re" + shown_regex(w["input"], "xx.compile")[2:]
+        bad = not ok
+        print(f"replay: re.compile({w['input']!r}) shown {shown!r} ->", "still violated" if bad else "holds now")
     elif w.get("invariant") == "HistoryIndependent":
         reset_shared_nodes()
         clean = probe_text()
